@@ -229,7 +229,7 @@ func Lex(c *gosym.Ctx, src gosym.Str) (toks []RTok, isErr bool, unspecified stri
 				return toks, false, "unterminated block comment"
 			}
 			l.advance(j + 2)
-		case l.isDigit(i) || (l.is(i, '-') && l.isDigit(i+1)):
+		case l.isDigit(i) || (!operandEnd(toks) && l.is(i, '-') && l.isDigit(i+1)):
 			j := i
 			if l.is(j, '-') {
 				j++
@@ -291,6 +291,18 @@ func Lex(c *gosym.Ctx, src gosym.Str) (toks []RTok, isErr bool, unspecified stri
 	}
 	emit("EOF", gosym.Str{}, l.row, l.col, l.posOK)
 	return toks, false, ""
+}
+
+// operandEnd: the last token ends an operand, so a following '-' is the subtraction operator.
+func operandEnd(toks []RTok) bool {
+	if len(toks) == 0 {
+		return false
+	}
+	switch toks[len(toks)-1].Kind {
+	case "IDENTIFIER", "NUMBER_LITERAL", "STRING_LITERAL", "BOOL_LITERAL", "NIL_LITERAL", "CLOSING_ROUND_BRACKET", "CLOSING_SQUARE_BRACKET":
+		return true
+	}
+	return false
 }
 
 var kwList [][2]string
